@@ -38,7 +38,7 @@ CLASSES = ['valid', 'valid-scope', 'dup-params-apart', 'none', 'wrong-tag', 'unk
            'dup-params', 'dup-results', 'count-mismatch', 'two-results', 'zero-results', 'garbage-cose', 'wrong-msg-type', 'truncated-cose',
            'not-an-asb', 'asb-bad-source', 'scope-missing-block', 'two-blocks-first-bad', 'two-blocks-second-bad',
            'two-blocks-both-good', 'multi-target-first-bad', 'multi-target-last-bad', 'multi-target-good', 'attached-original-altered-target',
-           'decoy-shares-number']
+           'decoy-shares-number', 'two-adjacent-good', 'two-adjacent-second-bad']
 # classes whose bundles are also structurally malformed for RFC 9171 (two blocks with one number): only "not delivered" is demanded,
 # a drop at decoding (even by an exception out of the receive callback) is as good as a deletion
 MALFORMED = ('decoy-shares-number',)
@@ -190,6 +190,22 @@ def build(cls, variant, rng, report):
             bundle['blocks'].remove(sec)
             bundle['blocks'].insert(1, sec)
             sec['num'] = 9
+    elif cls.startswith('two-adjacent'):
+        # two security blocks of the same kind next to each other in the block array (two sources / two policies each added one),
+        # over different targets; "second" is the one that comes second in the array
+        second_bad = cls == 'two-adjacent-second-bad'
+        order = rng.choice([[extra, pay], [pay, extra]])
+
+        def spoil(asb, sec, tgt):
+            if kind == 'bib':
+                (rid, rval) = asb['results'][0][0]
+                msg = cw.parse_all(rval).to_python()
+                msg[3] = bytes([msg[3][0] ^ 1]) + msg[3][1:]
+                asb['results'][0][0] = (rid, cw.enc(msg))
+            else:
+                tgt['data'] = tgt['data'][:-1] + bytes([tgt['data'][-1] ^ 1])
+        add_block(kind, order[0], 3, mutate=spoil if second_bad else None)     # ends up second (blocks are inserted at the front)
+        add_block(kind, order[1], 2)
     elif cls.startswith('two-blocks'):
         first_bad = cls == 'two-blocks-first-bad'
         second_bad = cls == 'two-blocks-second-bad'
